@@ -402,8 +402,9 @@ def fp_drpcsignal_chan_Chan_doSlow : List String :=
     "id:c", "id:mu", "id:Lock", "defer", "call:c.mu.Unlock", "id:c", "id:mu", "id:Unlock", "call:drpcdebug.Point", 
     "id:drpcdebug", "id:Point", "s:chan.doSlow.locked", "if", "==", "id:c", "id:done", "0", "defer", 
     "call:atomic.StoreUint32", "id:atomic", "id:StoreUint32", "u&", "id:c", "id:done", "1", "defer", 
-    "call:drpcdebug.Point", "id:drpcdebug", "id:Point", "s:chan.doSlow.store", "call:f", "id:f", 
-    "return", "id:true", "return", "id:false"]
+    "call:drpcdebug.Point", "id:drpcdebug", "id:Point", "s:chan.doSlow.store", "call:drpcdebug.Point", 
+    "id:drpcdebug", "id:Point", "s:chan.doSlow.init", "call:f", "id:f", "return", "id:true", "return", 
+    "id:false"]
 def fp_drpcsignal_chan_Chan_Close : List String :=
   ["if", "u!", "call:c.do", "id:c", "id:do", "id:c", "id:setClosed", "call:drpcdebug.Point", "id:drpcdebug", 
     "id:Point", "s:chan.Close.close", "call:close", "id:close", "id:c", "id:ch"]
